@@ -291,6 +291,46 @@ class Check:
         self.traces += len(cases)
         return bad
 
+    def nat_shards(self, name, header, cases, render, fn, shard=400, timeout=900):
+        """Evaluates fn : case -> list nat on every case inside Coq; returns one list per case (None when the
+        shard failed to evaluate).  One obligation per shard: the evaluation ran; what the lists mean is the caller's."""
+        from concurrent.futures import ThreadPoolExecutor
+        shards = [cases[i:i + shard] for i in range(0, len(cases), shard)]
+
+        def one(k):
+            body = [header, "Definition cases := [", ";\n".join(render(c) for c in shards[k]), "].",
+                    f"Definition answer : list nat := flat_map (fun c => let d := ({fn}) c in length d :: d) cases.",
+                    "Eval vm_compute in answer."]
+            return self.coq_eval(f"{name}_{k}", "\n".join(body), timeout)
+
+        with ThreadPoolExecutor(max_workers=16) as ex:
+            results = list(ex.map(one, range(len(shards))))
+        per_case = []
+        for k, (rc, out, err) in enumerate(results):
+            if rc != 0:
+                self.obligations.append(dict(name=f"corr:{name}:shard{k}", kind="corr", ok=False,
+                                             detail="coqc failed: " + err.strip()[-600:]))
+                per_case.extend([None] * len(shards[k]))
+                continue
+            flat = parse_natlist(out)
+            got, i = [], 0
+            while i < len(flat):
+                got.append(flat[i + 1:i + 1 + flat[i]])
+                i += 1 + flat[i]
+            ok = len(got) == len(shards[k])
+            self.obligations.append(dict(name=f"corr:{name}:shard{k}", kind="corr", ok=ok,
+                                         detail="" if ok else "answer does not have one entry per case"))
+            per_case.extend(got if ok else [None] * len(shards[k]))
+        self.checker_cmds.append(f"coqc -Q coq XV coq/gen/{self.pid}_{name}_<k>.v  ({len(shards)} shards, Eval vm_compute of {fn})")
+        return per_case
+
+    def coq_natlist(self, name, header, term, timeout=900):
+        """Evaluates a Gallina term of type list nat in the model (diagnosis of one case)."""
+        rc, out, err = self.coq_eval(name, f"{header}\nDefinition answer : list nat := {term}.\nEval vm_compute in answer.", timeout)
+        if rc != 0:
+            raise InternalError("coqc failed on a diagnosis term: " + err[-800:])
+        return parse_natlist(out)
+
     # ------------------------------------------------------------ verdict
     def violation(self, key, what, data):
         """An oracle violation on the implementation with a concrete failing input."""
